@@ -631,6 +631,146 @@ func tamperCmpKeygenShare(c *Ctx) {
 	c.Count("sess/tamper/keygen/cmp-share-range")
 }
 
+// equivocateKeygen: the deviating party runs TWO well-formed executions of a key generation (same id, independent
+// randomness): one faces the first honest party, the other the second. Each honest party sees only valid messages, but
+// the two see different broadcasts of the deviating party. Both executions hear every honest message. The honest parties
+// must not both finish (C06), and whoever finishes holds a consistent result (C03); nobody honest may be blamed (C04).
+func equivocateKeygen(c *Ctx, kind string) {
+	n, t := 3, 1+c.Intn(2)
+	ids := party.NewIDSlice(genIDs(c, n))
+	cheater := ids[c.Intn(n)]
+	honest := []party.ID{}
+	for _, id := range ids {
+		if id != cheater {
+			honest = append(honest, id)
+		}
+	}
+	sid := c.Bytes(8)
+	mk := func(id party.ID) protocol.Handler {
+		var h protocol.Handler
+		var err error
+		switch kind {
+		case "frost":
+			h, err = protocol.NewMultiHandler(frost.Keygen(secp, id, ids, t), sid)
+		case "frost-taproot":
+			h, err = protocol.NewMultiHandler(frost.KeygenTaproot(id, ids, t), sid)
+		case "cmp":
+			h, err = protocol.NewMultiHandler(cmp.Keygen(secp, id, ids, t, nil), sid)
+		}
+		if err != nil {
+			return nil
+		}
+		return h
+	}
+	type node struct {
+		h      protocol.Handler
+		id     party.ID
+		faces  map[party.ID]bool // whom this execution's messages reach
+		closed bool
+	}
+	nodes := []*node{}
+	all := map[party.ID]bool{}
+	for _, id := range ids {
+		all[id] = true
+	}
+	for _, id := range honest {
+		nodes = append(nodes, &node{h: mk(id), id: id, faces: all})
+	}
+	nodes = append(nodes, &node{h: mk(cheater), id: cheater, faces: map[party.ID]bool{honest[0]: true}})
+	nodes = append(nodes, &node{h: mk(cheater), id: cheater, faces: map[party.ID]bool{honest[1]: true}})
+	for _, nd := range nodes {
+		if nd.h == nil {
+			return
+		}
+	}
+	type item struct {
+		m  *protocol.Message
+		to *node
+	}
+	var queue []item
+	panicMsg := ""
+	collect := func() {
+		for _, nd := range nodes {
+			if nd.closed {
+				continue
+			}
+		loop:
+			for {
+				select {
+				case m, ok := <-nd.h.Listen():
+					if !ok {
+						nd.closed = true
+						break loop
+					}
+					for _, to := range nodes {
+						if to == nd || to.id == nd.id || !m.IsFor(to.id) || !nd.faces[to.id] {
+							continue
+						}
+						queue = append(queue, item{m, to})
+					}
+				default:
+					break loop
+				}
+			}
+		}
+	}
+	accept := func(it item) {
+		done := make(chan interface{}, 1)
+		go func() {
+			defer func() { done <- recover() }()
+			it.to.h.Accept(it.m)
+		}()
+		for {
+			select {
+			case r := <-done:
+				if r != nil {
+					panicMsg = fmt.Sprint(r)
+				}
+				return
+			default:
+				collect()
+			}
+		}
+	}
+	collect()
+	for steps := 0; len(queue) > 0 && steps < 20000 && panicMsg == ""; steps++ {
+		k := c.Intn(len(queue))
+		it := queue[k]
+		queue = append(queue[:k], queue[k+1:]...)
+		accept(it)
+		collect()
+	}
+	res := sessionResult{Results: map[party.ID]interface{}{}, Errors: map[party.ID]error{}}
+	for _, nd := range nodes[:len(honest)] {
+		r, err := nd.h.Result()
+		if err != nil {
+			res.Errors[nd.id] = err
+		} else {
+			res.Results[nd.id] = r
+		}
+	}
+	parties := []J{}
+	for _, id := range honest {
+		switch v := res.Results[id].(type) {
+		case *frost.Config:
+			parties = append(parties, frostCfgJ(v))
+		case *frost.TaprootConfig:
+			parties = append(parties, taprootCfgJ(v))
+		case *cmp.Config:
+			parties = append(parties, cmpCfgJ(v))
+		}
+	}
+	in := J{"phase": "keygen", "kind": kind, "n": n, "t": t, "ids": idsHex(ids), "cheater": hx([]byte(cheater)),
+		"tampering": []string{"equivocation: two well-formed executions of the deviating party, one facing each honest party"},
+		"parties": parties, "blame": culpritsJ(res, honest), "honest": idsHex(honest), "equivocated": true}
+	var impl interface{} = J{"ok": true}
+	if panicMsg != "" {
+		impl = J{"outcome": "PANIC", "detail": panicMsg}
+	}
+	c.Emit("tamper", in, impl)
+	c.Count("sess/tamper/keygen/" + kind + "-equivocation")
+}
+
 func init() {
 	// C09: every proof-carrying message replayed under another sender's name (FROST keygen round 2: the only broadcast
 	// of the shipped protocols whose proof would verify for another party if it were not bound to its maker)
@@ -639,6 +779,18 @@ func init() {
 		defer restoreCryptoRand()
 		for i := 0; i < c.N; i++ {
 			tamperKeygenX(c, []string{"frost", "frost-taproot"}[i%2], true)
+		}
+	})
+	// C06 on the real protocols: equivocation by two well-formed executions of one party
+	register("sess-equivocate", func(c *Ctx) {
+		seedCryptoRand(c.Seed*7919 + 6006)
+		defer restoreCryptoRand()
+		installPrimeHook(c.Intn(40))
+		for i := 0; i < c.N; i++ {
+			equivocateKeygen(c, []string{"frost", "frost-taproot"}[i%2])
+		}
+		if c.Tier == "thorough" {
+			equivocateKeygen(c, "cmp")
 		}
 	})
 	register("sess-tamper", func(c *Ctx) {
@@ -655,6 +807,13 @@ func init() {
 			} else {
 				tamperKeygen(c, k)
 			}
+		}
+		// equivocation by two well-formed executions of the deviating party (fast protocols; CMP in the thorough tier)
+		for i := 0; i < 2+c.N/15; i++ {
+			equivocateKeygen(c, []string{"frost", "frost-taproot"}[i%2])
+		}
+		if c.Tier == "thorough" {
+			equivocateKeygen(c, "cmp")
 		}
 		// CMP keygen with a well-formed encryption of an out-of-range share (once per run: ~10 s)
 		tamperCmpKeygenShare(c)
